@@ -244,6 +244,19 @@ theorem provider_shape :
     Gen.HttpWire.providerAcquire = ["def:=<-recv.Sink", "if(!<-recv.Sink#1){return nil,lit:false}", "def:=<-recv.Sink#0.BuildRequest()", "if(!=(.BuildRequest()#1,nil)){return <-recv.Sink#0,lit:false}", "range(recv.Middlewares){def:=val.UpdateRequest(.BuildRequest()#0);if(!=(val.UpdateRequest(.BuildRequest()#0),nil)){return <-recv.Sink#0,lit:false}}", "return ammo.NewGunAmmo(.BuildRequest()#0,<-recv.Sink#0.Tag(),recv.NextID()),<-recv.Sink#1"] ∧
     Gen.HttpWire.providerRelease = ["if(recv.Preload){return }", "recv.Decoder.Release(param0)"] := ⟨rfl, rfl, rfl⟩
 
+/-! ### round 4: which configurations get a pool of shared clients -/
+
+/-- base.go prepareClientPool, translated statement by statement (`Gen.HttpWire.sharedPool`), IS the model's `sharedPool`:
+no pool unless `shared-client.enabled`, whatever `client-number` says; with it, `client-number` clients, one when the number
+is below one. Proved by case analysis on the switch and linear arithmetic on the number, so the guards may be written and
+ordered in any equivalent way; a change of WHICH configurations get a pool, or of its size, is refused. -/
+theorem sharedPool_eq (enabled : Bool) (n : Int) : Gen.HttpWire.sharedPool enabled n = sharedPool enabled n := by
+  unfold Gen.HttpWire.sharedPool sharedPool
+  cases enabled <;> by_cases h1 : n < 1 <;> by_cases h0 : n < 0 <;> simp [h1, h0] <;> omega
+
+/-- the pool is filled by the gun's own client constructor (same configuration and target as a per-instance client) -/
+theorem sharedPoolFill_shape : Gen.HttpWire.sharedPoolFill = ["Add(recv.ClientConstructor())"] := rfl
+
 theorem http2NeedsSSL_eq (ssl : Bool) : constructible .http2 ssl = (!Gen.HttpWire.http2NeedsSSL || ssl) := by
   cases ssl <;> rfl
 
